@@ -4,8 +4,14 @@ use crate::speclib::*;
 verus! {
 
 //@@ rawconst src/const_choice.rs | impl ConstChoice | FALSE
+impl ConstChoice {
+pub const FALSE: Self = Self(0);
+}
 //@@ end
 //@@ rawconst src/const_choice.rs | impl ConstChoice | TRUE
+impl ConstChoice {
+pub const TRUE: Self = Self(Word::MAX);
+}
 //@@ end
 
 //@@ fn src/const_choice.rs | impl ConstChoice | as_u32_mask | body | props C06 C11
